@@ -7,6 +7,7 @@ import (
 	"math/big"
 	"strconv"
 	"strings"
+	"sync"
 
 	"github.com/libsv/go-bk/base58"
 	"github.com/libsv/go-bk/bec"
@@ -27,14 +28,40 @@ func pad32(b []byte) []byte {
 	return out
 }
 
+// privOf: the private key object for the number d, made by PrivKeyFromBytes from one of its big-endian encodings — the
+// minimal one, the 32-byte one, or one with a zero byte in front of the 32 (chosen by the text of the op line): the key is
+// the number, not its spelling.
 func privOf(d *big.Int) *bec.PrivateKey {
-	priv, _ := bec.PrivKeyFromBytes(bec.S256(), d.Bytes())
+	b := d.Bytes()
+	switch (tapeFailSalt / 4) % 3 {
+	case 1:
+		if len(b) < 32 {
+			b = append(make([]byte, 32-len(b)), b...)
+		}
+	case 2:
+		if len(b) <= 32 {
+			b = append(make([]byte, 33-len(b)), b...)
+		}
+	}
+	priv, _ := bec.PrivKeyFromBytes(bec.S256(), b)
 	return priv
 }
 
+// pubOf: a public key object as a caller would build it.  For one op line in four (chosen by the text of the line) its Curve
+// is a second KoblitzCurve object with the same parameters (a copy of the singleton): what is asked about a key must not
+// depend on the identity of its curve object.
 func pubOf(x, y *big.Int) *bec.PublicKey {
+	if tapeFailSalt%4 == 1 {
+		curveCopyOnce.Do(func() { c := *bec.S256(); curveCopy = &c }) // not at init time: the first use of S256() belongs to the ops
+		return &bec.PublicKey{Curve: curveCopy, X: x, Y: y}
+	}
 	return &bec.PublicKey{Curve: bec.S256(), X: x, Y: y}
 }
+
+var (
+	curveCopy     *bec.KoblitzCurve
+	curveCopyOnce sync.Once
+)
 
 func ptStr(x, y *big.Int) string { return nhx(x) + " " + nhx(y) }
 
